@@ -222,21 +222,44 @@ def _parse(res, tags):
         od, ot = res.coverage.get(name, (0, 0))
         res.coverage[name] = (od + d, ot + t)
     if tags:
-        tagre = re.compile(r'^<<"(%s)"' % "|".join(map(re.escape, tags)))
-        # fast path: one value per line
-        for line in out.split("\n"):
-            if tagre.match(line):
-                try:
-                    res.prints.append(parse_value(line))
-                except Exception:
-                    res.prints = None
+        res.prints = extract_tagged(out, tags)
+
+
+def extract_tagged(out, tags):
+    """All PrintT values of the form <<"TAG", ...>> (possibly pretty-printed over several lines)."""
+    vals = []
+    tagre = re.compile(r'^<<\s*"(%s)"' % "|".join(map(re.escape, tags)), re.M)
+    pos = 0
+    n = len(out)
+    while True:
+        m = tagre.search(out, pos)
+        if not m:
+            break
+        i = m.start()
+        depth = 0
+        instr = False
+        j = i
+        while j < n:
+            c = out[j]
+            if instr:
+                if c == "\\":
+                    j += 1
+                elif c == '"':
+                    instr = False
+            elif c == '"':
+                instr = True
+            elif c == "<" and out.startswith("<<", j):
+                depth += 1
+                j += 1
+            elif c == ">" and out.startswith(">>", j):
+                depth -= 1
+                j += 1
+                if depth == 0:
                     break
-        if res.prints is None:
-            res.prints = []
-            for chunk in split_toplevel(out):
-                c = chunk.strip()
-                if tagre.match(c):
-                    res.prints.append(parse_value(c))
+            j += 1
+        vals.append(parse_value(out[i:j + 1]))
+        pos = j + 1
+    return vals
 
 
 def run_tlc(module, cfg, *, trace_file=None, env=None, workers=1, simulate=None, depth=None,
